@@ -331,9 +331,11 @@ func (idx *PQIndex) Remove(vector VectorNode) error {
 	id := vector.ID()
 
 	// ════════════════════════════════════════════════════════════════════════
-	// STEP 1: CHECK EXISTENCE (READ LOCK - CHEAPER)
+	// STEP 1: CHECK EXISTENCE (under the write lock: check and mark must be one atomic step,
+	// otherwise a concurrent Remove+Flush between them leaves a tombstone for an id that is gone)
 	// ════════════════════════════════════════════════════════════════════════
-	idx.mu.RLock()
+	idx.mu.Lock()
+	defer idx.mu.Unlock()
 	exists := false
 	for _, v := range idx.vectorNodes {
 		if v.ID() == id {
@@ -342,9 +344,8 @@ func (idx *PQIndex) Remove(vector VectorNode) error {
 		}
 	}
 	alreadyDeleted := idx.deletedNodes.Contains(id)
-	idx.mu.RUnlock()
 
-	// Fast-fail validation outside of write lock
+	// Fast-fail validation
 	if !exists {
 		return fmt.Errorf("vector with ID %d not found", id)
 	}
@@ -353,11 +354,9 @@ func (idx *PQIndex) Remove(vector VectorNode) error {
 	}
 
 	// ════════════════════════════════════════════════════════════════════════
-	// STEP 2: MARK AS DELETED (WRITE LOCK - ONLY FOR BITMAP UPDATE)
+	// STEP 2: MARK AS DELETED (same write-locked region)
 	// ════════════════════════════════════════════════════════════════════════
-	idx.mu.Lock()
 	idx.deletedNodes.Add(id)
-	idx.mu.Unlock()
 
 	return nil
 }
